@@ -178,7 +178,7 @@ func oracleC14(l *harness.Live) (c14Info, *harness.Failure) {
 
 func c14Doc() xgen.DocOpts {
 	o := xgen.DefaultDoc()
-	o.ElNames = []string{"a", "b"}
+	o.ElNames = []string{"a", "b", "a.b-c"} // name characters beyond letters: '.' and '-'
 	o.MaxFan = 4
 	o.NS = &xgen.NSOpts{Prefixes: []string{"", "", "p", "q"}, URIs: []string{"", "u1", "u2", "u3"}}
 	return o
@@ -191,7 +191,7 @@ func TestC14Rapid(t *testing.T) {
 		doc := xgen.Doc(rt, shapedOpts)
 		ctx := xgen.Context(rt, doc, 4)
 		g := xgen.NewG(rt, doc)
-		g.ElNames = []string{"a", "b"}
+		g.ElNames = []string{"a", "b", "a.b-c"}
 		config := rapid.SampledFrom([]string{"none", "none", "map", "map", "map", "missing", "empty", "nilmap"}).Draw(rt, "config")
 		flav := xdoc.NS
 		useMap := config == "map" || config == "missing" || config == "empty"
@@ -254,7 +254,7 @@ func TestC14Rapid(t *testing.T) {
 				e = g.AxisPath(ctx, xgen.PathOpts{MaxSteps: 3, AbsShare: 4, DSlash: 2})
 			}
 		}
-		l := &harness.Live{Property: "C14", Check: "C14/names", Doc: doc, Ctx: ctx, AST: e, Expr: xast.Render(e), Flavour: flav}
+		l := &harness.Live{Property: "C14", Check: "C14/names", Doc: doc, Ctx: ctx, AST: e, Expr: renderDrawn(rt, e), Flavour: flav}
 		switch config {
 		case "map":
 			used := map[string]string{}
